@@ -21,10 +21,17 @@ the requested snapshot objects are gone, nothing unrelated is removed; after cle
 previously stored ones that a remaining snapshot references; config, stray objects and (encrypted) other families' objects are
 bit-identical; `parse(build(name, tag)) == (name, tag)` for hex strings with |tag| ≥ 4 (chunks) / ≥ 2 (snapshots); on the local backend
 every foreign file is still a regular file with identical bytes after every command and after every `Local.clean()`, and `clean` completes.
+
+(4) delete / clean over a LISTING THAT FAILS OR IS SILENTLY PARTIAL (`impl/c02_listing.py`, own cases): real local backend with one directory
+that cannot be scanned (interposed OSError of every class, once or every time; iteration cut after k entries; entry type tests failing; REAL
+chmod 000 under another uid) and memory backends whose `list_files` raises; tie `repolist.step`.  Oracle: a `clean` that reports success although
+the fault fired has left no chunk object of the caller's family that no stored snapshot references (`gc:listing-fault:clean-reported-complete-
+but-orphans-left:*`), and every stored snapshot still restores (`history:listing-fault:*`).
 """
 import json
 
 from ..common import rng_for
+from ..impl import c02_listing as LS
 from ..impl import c08_localgc as LG
 from ..impl import histx as X
 from ..impl import runner as R
@@ -261,6 +268,12 @@ def run(out, drv, info):
         out.count('faulty-load:%s:%s' % (res['summary'].get('cmd'), res['summary'].get('error')))
         for sig, what in res['violations']:
             out.violation(sig, what, {'kind': 'faulty-load', 'seed': out.seed, 'idx': res['idx']})
+    # delete / clean over a listing that fails or is silently partial (the stream of impl/c02_listing.py on its own cases): a clean that
+    # reports success must have been complete, and whatever the outcome nothing of anybody else's may be gone
+    with mp.get_context('fork').Pool(min(16, os.cpu_count() or 4)) as pool:
+        gres = pool.map(LS.listing_case, [(out.seed, 100000 + i, out.tier) for i in range(24 if quick else 200)], chunksize=1)
+    for res in gres:
+        LS.account(res, out, drv, gc=True)
     # the REAL local backend with foreign objects of every name shape outside the two areas (its own clean-up walks the whole directory)
     n_trees, n_lh, n_lops = (200, 40, 9) if quick else (3000, 400, 14)
     LG.run(out, drv, n_trees, n_lh, n_lops)
@@ -282,6 +295,8 @@ def _replay(path, drv):
         back = impl_parse(parse, loc)
         print('location', loc, 'parsed', back)
         return 0 if (back.get('name') == rp['name'] and back.get('tag') == rp['tag']) else 1
+    if rp.get('kind') == 'listing':
+        return LS.replay_listing(rp, drv)
     if rp.get('kind') in ('local-tree', 'local-history'):
         return LG.replay(rp, drv)
     if rp.get('kind') == 'format-tie':
